@@ -26,6 +26,38 @@ fn concurrent_draws_are_not_duplicated() {
         if streams.iter().all(|s| *s == streams[0]) {
             continue; // per-thread generators: every thread sees what it would see running alone
         }
+        if round == 0 {
+            // first round of a fresh process: a shared generator hands out the first THREADS * NODES draws of the seed-42 stream,
+            // each exactly once and to every thread in stream order; a draw that the stream does not contain is foreign
+            let mut rng = rlib_rand::Rng::from_seed(42);
+            let global: Vec<u32> = (0..THREADS * NODES).map(|_| rng.next_raw() as u32).collect();
+            let mut positions: std::collections::HashMap<u32, Vec<usize>> = std::collections::HashMap::new();
+            for (i, &p) in global.iter().enumerate().rev() {
+                positions.entry(p).or_default().push(i);
+            }
+            let repeated: std::collections::HashSet<u32> = positions.iter().filter(|(_, v)| v.len() > 1).map(|(&p, _)| p).collect();
+            let (mut foreign, mut out_of_order) = (0usize, 0usize);
+            for s in streams.iter() {
+                let mut last = None;
+                for &p in s.iter() {
+                    match positions.get_mut(&p).and_then(|v| v.pop()) {
+                        None => foreign += 1,
+                        Some(_) if repeated.contains(&p) => {}
+                        Some(i) => {
+                            if last.map_or(false, |l| i < l) {
+                                out_of_order += 1;
+                            }
+                            last = Some(i);
+                        }
+                    }
+                }
+            }
+            let lost: usize = positions.values().map(|v| v.len()).sum();
+            assert!(
+                foreign == 0 && lost == 0 && out_of_order == 0,
+                "round 0: no sequential execution explains the priorities: {foreign} draws foreign to the seed-42 stream or handed out twice, {lost} draws of the stream lost, {out_of_order} out of stream order within a thread"
+            );
+        }
         let mut all: Vec<u32> = streams.iter().flatten().copied().collect();
         let total = all.len();
         all.sort_unstable();
